@@ -266,7 +266,7 @@ Lemma find_indexer_spec lens x : Forall (fun h => 0 <= h) lens -> lens <> [] -> 
   /\ bnd lens (Z.to_nat ind) <= x
   /\ (ind + 1 < zlen lens -> x < bnd lens (S (Z.to_nat ind))).
 Proof.
-  intros Hn Hne Hx ind. unfold ind, find_indexer, zlen.
+  intros Hn Hne Hx ind. unfold ind, find_indexer, concat_find_indexer, concat_searchsorted_before, zlen.
   destruct (count_spec x lens 0 Hn) as [C1 [C2 [C3 C4]]].
   set (c := List.length (filter (fun s => s <=? x) (starts_from 0 lens))) in *.
   specialize (C4 Hx Hne). split; [lia|].
@@ -512,8 +512,9 @@ Section Branches.
     exists hs, resolve total (AInt z) = Ok hs /\ head_result out hs.
   Proof.
     cbn [c_head]. fold lens. fold starts.
+    unfold concat_norm_scalar, concat_scalar_rejected, concat_local_scalar.
     set (z' := if z <? 0 then total + z else z).
-    destruct ((0 <=? z') && (z' <? total)) eqn:E; [|discriminate].
+    destruct ((0 <=? z') && (z' <? total)) eqn:E; cbn [negb]; [|discriminate].
     destruct (find_indexer_spec lens z' LN LE ltac:(lia)) as [I1 [I2 I3]].
     set (ind := find_indexer starts z') in *. fold starts in I1, I2, I3. fold ind in I1, I2, I3.
     set (pd := mk_cpart (mk_lazyidx [] [] [] 0) (Leaf 0)).
@@ -603,8 +604,86 @@ Section SliceBranch.
                          (Z.to_nat (stop - first_ge start st (bnd lens j)))). lia.
   Qed.
 
+  Let HFrel (j : nat) (c : arr) : Prop :=
+    a_dtype c = dt /\ a_nd c = mk_nd (zlen (Pos j) :: take_shape S) (Node (map (row CH S) (Pos j))).
+
+  (* a chunk that is extracted is the block of rows Pos j of the concatenation *)
+  Lemma slice_chunk_block ind c : 0 <= ind < Z.of_nat k -> bnd lens (Z.to_nat ind) <= stop ->
+    slice_chunk dt ps starts tail (take_shape S) start stop st ind = Ok c -> HFrel (Z.to_nat ind) c.
+  Proof.
+    intros Bd Hoffs Hc.
+    assert (Hl : List.length lens = k) by (unfold lens, k; apply map_length).
+    set (pd := mk_cpart (mk_lazyidx [] [] [] 0) (Leaf 0)).
+    set (j := Z.to_nat ind) in *.
+    assert (Hj : (j < k)%nat) by (unfold j; lia).
+    unfold slice_chunk in Hc.
+    rewrite (py_nth_nonneg ps ind pd) in Hc by (unfold zlen; fold k; lia). cbn [bind] in Hc.
+    rewrite (py_nth_nonneg starts ind 0) in Hc
+      by (unfold zlen, starts; rewrite starts_from_length, Hl; lia). cbn [bind] in Hc.
+    fold j in Hc.
+    assert (Hoff : nth j starts 0 = bnd lens j).
+    { unfold starts. rewrite starts_from_nth by (rewrite Hl; exact Hj). lia. }
+    rewrite Hoff in Hc.
+    set (off := bnd lens j) in *.
+    unfold concat_chunk_start, concat_chunk_stop in Hc.
+    set (cs := if off <=? start then start - off else (start - off) mod st) in *.
+    destruct (part_get dt (nth j ps pd) _) as [sub|] eqn:EG; [|discriminate]. cbn [bind] in Hc.
+    unfold reshape_chunk in Hc. destruct (existsb _ _); [discriminate|]. injection Hc as <-.
+    destruct (part_rows ps fs T dt tail S HP HT HS Hlen _ pd _ _ Hj EG) as [Pq [d [ER [HD [HN _]]]]].
+    fold lens in ER, HN. fold CH in HN. fold off in HN.
+    cbn [resolve] in ER. destruct (slice_positions _ _ _ _) as [Pq'|] eqn:SP; [|discriminate].
+    injection ER as <- <-.
+    assert (Hcs : 0 <= cs) by (unfold cs; destruct (off <=? start) eqn:E; [lia|apply Z.mod_pos_bound; lia]).
+    assert (Hh : 0 <= nth j lens 0).
+    { rewrite Forall_forall in LN. apply LN. apply nth_In. rewrite Hl. exact Hj. }
+    pose proof (local_slice_positions off _ cs stop st Pq' Hst Hh Hcs ltac:(lia) SP) as LP.
+    assert (Hfg : off + cs = first_ge start st off).
+    { unfold cs, first_ge. destruct (off <=? start); lia. }
+    assert (HS1 : off + nth j lens 0 = bnd lens (Datatypes.S j)) by (unfold off; rewrite bnd_S by (rewrite Hl; exact Hj); lia).
+    rewrite Hfg, HS1 in LP.
+    assert (LP' : map (fun q => off + q) Pq' = Pos j) by (unfold Pos; fold off; exact LP).
+    split; [exact HD|]. rewrite HN. cbn [take_shape]. rewrite LP'.
+    f_equal. f_equal. rewrite <- LP'. now rewrite zlen_map.
+  Qed.
+
+  (* the loop with its `continue`: the extracted chunks are the blocks of the indexers that were not skipped, and a
+     skipped indexer owns no selected row *)
+  Lemma slice_chunks_blocks : forall inds have chunks,
+    Forall (fun ind => 0 <= ind < Z.of_nat k /\ bnd lens (Z.to_nat ind) <= stop) inds ->
+    slice_chunks dt ps starts tail (take_shape S) start stop st have inds = Ok chunks ->
+    exists js, Forall2 HFrel js chunks /\ flat_map Pos js = flat_map Pos (map Z.to_nat inds).
+  Proof.
+    assert (Hl : List.length lens = k) by (unfold lens, k; apply map_length).
+    induction inds as [|ind r IH]; intros have chunks HB HC.
+    - cbn in HC. injection HC as <-. exists []. split; [constructor|reflexivity].
+    - inversion HB as [|? ? [Bd Hoffs] HB']; subst. cbn [slice_chunks] in HC.
+      rewrite (py_nth_nonneg starts ind 0) in HC
+        by (unfold zlen, starts; rewrite starts_from_length, Hl; lia). cbn [bind] in HC.
+      set (j := Z.to_nat ind) in *.
+      assert (Hj : (j < k)%nat) by (unfold j; lia).
+      assert (Hoff : nth j starts 0 = bnd lens j).
+      { unfold starts. rewrite starts_from_nth by (rewrite Hl; exact Hj). lia. }
+      rewrite Hoff in HC. set (off := bnd lens j) in *.
+      destruct (concat_chunk_skipped have _ _) eqn:ESK.
+      + (* skipped: nothing of the progression lies in this indexer *)
+        destruct (IH have chunks HB' HC) as [js [F1 F2]]. exists js. split; [exact F1|].
+        cbn [map flat_map]. fold j. rewrite F2.
+        assert (EP : Pos j = []).
+        { unfold Pos. fold off. apply py_range_nil; [exact Hst|].
+          unfold concat_chunk_skipped, concat_chunk_start, concat_chunk_stop in ESK.
+          apply andb_prop in ESK. destruct ESK as [_ ESK].
+          unfold first_ge. destruct (off <=? start) eqn:E; lia. }
+        now rewrite EP.
+      + destruct (slice_chunk _ _ _ _ _ _ _ _ ind) as [c|] eqn:EC; [|discriminate]. cbn [bind] in HC.
+        destruct (slice_chunks _ _ _ _ _ _ _ _ true r) as [rest|] eqn:ER; [|discriminate]. cbn [bind] in HC.
+        injection HC as <-.
+        destruct (IH true rest HB' ER) as [js [F1 F2]]. exists (j :: js). split.
+        * constructor; [|exact F1]. exact (slice_chunk_block ind c Bd Hoffs EC).
+        * cbn [map flat_map]. fold j. now rewrite F2.
+  Qed.
+
   Lemma head_slice_chunks chunks out :
-    mapM (slice_chunk dt ps starts tail (take_shape S) start stop st)
+    slice_chunks dt ps starts tail (take_shape S) start stop st false
          (py_range (find_indexer starts start) (find_indexer starts stop + 1) 1) = Ok chunks ->
     concat_chunks dt (take_shape S) chunks = Ok out ->
     head_result fs dt S out (py_range start stop st, false).
@@ -619,44 +698,13 @@ Section SliceBranch.
     unfold zlen in A1, B1. rewrite Hl in A1, B1.
     destruct (Z_lt_ge_dec (ib + 1) ia) as [Hlt|Hge].
     { rewrite py_range_nil in HM by lia. cbn in HM. injection HM as <-. discriminate. }
-    set (pd := mk_cpart (mk_lazyidx [] [] [] 0) (Leaf 0)).
-    (* every chunk is the block of rows Pos j of the concatenation *)
-    assert (HF : Forall2 (fun j c => a_dtype c = dt /\ a_nd c = mk_nd (zlen (Pos j) :: take_shape S) (Node (map (row CH S) (Pos j))))
-                         (map Z.to_nat (py_range ia (ib + 1) 1)) chunks).
-    { apply Forall2_map_l. eapply mapM_Forall2_rel; [exact HM|]. intros ind c Hin Hc.
+    assert (HB : Forall (fun ind => 0 <= ind < Z.of_nat k /\ bnd lens (Z.to_nat ind) <= stop) (py_range ia (ib + 1) 1)).
+    { apply Forall_forall. intros ind Hin.
       destruct (py_range_bounds ia (ib + 1) 1 ind ltac:(lia) Hin) as [Bd _]. specialize (Bd ltac:(lia)).
-      set (j := Z.to_nat ind).
-      assert (Hj : (j < k)%nat) by (unfold j; lia).
-      unfold slice_chunk in Hc.
-      rewrite (py_nth_nonneg ps ind pd) in Hc by (unfold zlen; fold k; lia). cbn [bind] in Hc.
-      rewrite (py_nth_nonneg starts ind 0) in Hc
-        by (unfold zlen, starts; rewrite starts_from_length, Hl; lia). cbn [bind] in Hc.
-      fold j in Hc.
-      assert (Hoff : nth j starts 0 = bnd lens j).
-      { unfold starts. rewrite starts_from_nth by (rewrite Hl; exact Hj). lia. }
-      rewrite Hoff in Hc.
-      set (off := bnd lens j) in *.
-      set (cs := if off <=? start then start - off else (start - off) mod st) in *.
-      destruct (part_get dt (nth j ps pd) _) as [sub|] eqn:EG; [|discriminate]. cbn [bind] in Hc.
-      unfold reshape_chunk in Hc. destruct (existsb _ _); [discriminate|]. injection Hc as <-.
-      destruct (part_rows ps fs T dt tail S HP HT HS Hlen _ pd _ _ Hj EG) as [Pq [d [ER [HD [HN _]]]]].
-      fold lens in ER, HN. fold CH in HN. fold off in HN.
-      cbn [resolve] in ER. destruct (slice_positions _ _ _ _) as [Pq'|] eqn:SP; [|discriminate].
-      injection ER as <- <-.
-      assert (Hcs : 0 <= cs) by (unfold cs; destruct (off <=? start) eqn:E; [lia|apply Z.mod_pos_bound; lia]).
-      assert (Hoffs : off <= stop).
-      { unfold off. pose proof (bnd_mono_le lens j (Z.to_nat ib) LN ltac:(unfold j; lia)). lia. }
-      assert (Hh : 0 <= nth j lens 0).
-      { rewrite Forall_forall in LN. apply LN. apply nth_In. rewrite Hl. exact Hj. }
-      pose proof (local_slice_positions off _ cs stop st Pq' Hst Hh Hcs ltac:(lia) SP) as LP.
-      assert (Hfg : off + cs = first_ge start st off).
-      { unfold cs, first_ge. destruct (off <=? start); lia. }
-      assert (HS1 : off + nth j lens 0 = bnd lens (Datatypes.S j)) by (unfold off; rewrite bnd_S by (rewrite Hl; exact Hj); lia).
-      rewrite Hfg, HS1 in LP.
-      assert (LP' : map (fun q => off + q) Pq' = Pos j) by (unfold Pos; fold off; exact LP).
-      split; [exact HD|]. rewrite HN. cbn [take_shape]. rewrite LP'.
-      f_equal. f_equal. rewrite <- LP'. now rewrite zlen_map. }
+      split; [lia|]. pose proof (bnd_mono_le lens (Z.to_nat ind) (Z.to_nat ib) LN ltac:(lia)). lia. }
+    destruct (slice_chunks_blocks _ _ _ HB HM) as [js [HF HFM]].
     pose proof (chunks_rows fs dt S Pos _ _ _ HF HC) as ->.
+    rewrite HFM.
     (* the blocks tile the global progression *)
     assert (HJ : map Z.to_nat (py_range ia (ib + 1) 1) = seq (Z.to_nat ia) (Z.to_nat (ib + 1 - ia))).
     { rewrite py_range_unit by lia. apply py_range_unit_seq. lia. }
@@ -905,7 +953,7 @@ Section ListBranch.
     - assert (Hik : (i < k)%nat) by lia.
       rewrite (skipn_nth_cons ps i pd) in HSP by exact Hik.
       rewrite (skipn_nth_cons starts i 0) in HSP by (unfold starts; rewrite starts_from_length, Hl; exact Hik).
-      cbn [scatter_parts] in HSP.
+      cbn [scatter_parts] in HSP. unfold concat_local_list in HSP.
       assert (Hoff : nth i starts 0 = bnd lens i).
       { unfold starts. rewrite starts_from_nth by (rewrite Hl; exact Hik). lia. }
       rewrite Hoff in HSP.
@@ -958,7 +1006,7 @@ Proof.
   set (total := zsum (map part_len ps)) in *.
   destruct (mapM (wrap_res total) l) as [P|] eqn:EW; [|discriminate]. cbn [bind] in HC.
   destruct (wrap_all_norm _ _ _ EW) as [HPn HPos].
-  rewrite <- HPn in HC.
+  unfold concat_norm_list in HC. rewrite <- HPn in HC.
   destruct (scatter_parts _ _ _ _ _ _ _) as [rows|] eqn:ESP in HC; [|discriminate]. cbn [bind] in HC.
   destruct (mapM _ rows) as [rows'|] eqn:ER in HC; [|discriminate]. cbn [bind] in HC. injection HC as <-.
   assert (HF0 : Forall2 (filled fs S) (repeat None (List.length l)) P).
@@ -991,13 +1039,14 @@ Section Core.
     - exact (head_scalar ps fs T dt tail S HP HT HS Hne Hlen z out0 HC).
     - cbn [c_head] in HC. fold lens in HC. fold total in HC.
       destruct (slice_indices total a b cc) as [[[start stop] st]|] eqn:ESI; [|discriminate].
+      unfold concat_stride_rejected, concat_first_indexer, concat_end_indexer in HC.
       destruct (st <? 0) eqn:Est; [discriminate|].
       assert (Htot : 0 <= total).
       { unfold total. pose proof (lens_nonneg ps Hlen) as LN. fold lens in LN. clear -LN.
         induction LN; cbn; [lia|]. fold (zsum l). lia. }
       destruct (slice_indices_bounds _ _ _ _ _ _ _ Htot ESI) as [H0 [Bp _]].
       specialize (Bp ltac:(lia)).
-      destruct (mapM _ _) as [chunks|] eqn:EM in HC; [|discriminate]. cbn [bind] in HC.
+      destruct (slice_chunks _ _ _ _ _ _ _ _ _ _) as [chunks|] eqn:EM in HC; [|discriminate]. cbn [bind] in HC.
       exists (py_range start stop st, false). split.
       + cbn [resolve]. unfold slice_positions. now rewrite ESI.
       + assert (Hst : 0 < st) by lia.
